@@ -139,26 +139,52 @@ def _rename_aliases(crates):
     except Exception:
         return {}
     present = {}
+    callers = {}
     for c, data in crates.items():
         for b in data["bodies"]:
             if b["kind"] in ("Fn", "AssocFn") and not b.get("exp"):
                 present[b["key"]] = {"inputs": b.get("inputs"), "output": b.get("output"), "is_async": b.get("is_async"), "kind": b["kind"]}
+            root = b["key"].split("::{closure")[0]
+            for blk in (b.get("body") or {}).get("blocks", []):
+                t = blk["term"]
+                if t["t"] == "call":
+                    for nm in (t.get("res"), t.get("fn")):
+                        if nm:
+                            callers.setdefault(_strip_generics(nm), set()).add(root)
     missing = [k for k in sigs if k not in present and k.split("::")[0] in crates]
     new = [k for k in present if k not in known]
     out = {}
 
+    def sig(d):
+        return {x: d.get(x) for x in ("inputs", "output", "is_async", "kind")}
+
     def container(k):
         return k.rsplit("::", 1)[0]
+
+    def same_role(n, k):
+        """the candidate is used where the vanished function was: they share a direct caller (callers that vanished themselves
+        do not count against it). A same-signature function called from elsewhere is a different function, not a rename."""
+        old = set(sigs[k].get("callers") or [])
+        if not old:
+            return True
+        now = callers.get(n, set())
+        alive = {c for c in old if c in present}
+        return bool(now & old) or not alive
     for k in missing:
-        cands = [n for n in new if present[n] == sigs[k] and container(n) == container(k)]
-        rivals = [m for m in missing if sigs[m] == sigs[k] and container(m) == container(k)]
+        cands = [n for n in new if sig(present[n]) == sig(sigs[k]) and container(n) == container(k) and same_role(n, k)]
+        rivals = [m for m in missing if sig(sigs[m]) == sig(sigs[k]) and container(m) == container(k)]
         if len(cands) == 1 and len(rivals) == 1:
             out[cands[0]] = k
             continue
-        cands = [n for n in new if present[n] == sigs[k] and n.rsplit("::", 1)[1] == k.rsplit("::", 1)[1]]
+        cands = [n for n in new if sig(present[n]) == sig(sigs[k]) and n.rsplit("::", 1)[1] == k.rsplit("::", 1)[1]]
         if len(cands) == 1 and cands[0] not in out:
             out[cands[0]] = k
     return out
+
+
+def _strip_generics(s):
+    from .mir import strip_generics
+    return strip_generics(s)
 
 
 def load_facts(facts_dir):
